@@ -2,7 +2,7 @@
    steps: in-place rewriting, destination switches, stale tails, source clearing. *)
 From Coq Require Import NArith ZArith List Bool Lia ZifyN ZifyNat ZifyBool Sorting.Sorted FMapPositive.
 From GB Require Import Consts Words Hash HintFile HTree Compress Bucket BucketOpen Gc CheckL2 RefMap
-     BucketBasics Refine GcTouch LogMono CollideProofs Upd Restart1 Restart2 GcSplit GcSplitProofs.
+     BucketBasics Refine GcTouch LogMono CollideProofs Upd Restart1 Restart2 Restart3 GcSplit GcSplitProofs.
 Import ListNotations.
 Open Scope N_scope.
 
@@ -246,8 +246,655 @@ Proof.
   split; [exact G7|]. split; [exact G8|]. split; [exact G9|]. split; [intros e He; apply G10; now right|].
   split; [intros E e He; apply (G11 E); now right|]. split; [unfold spaced in *; now inversion G12|].
   split; [exact G13|]. split; [exact G14|]. split; [|exact G16].
-  intros h s Hs. destruct (G15 h s Hs) as (r0 & L & A1 & A2 & A3 & A4 & A5 & P). exists r0. repeat split; try assumption.
+  intros h s Hs. destruct (G15 h s Hs) as (r0 & L & A1 & A2 & A3 & A4 & A5 & P). exists r0.
+  split; [exact L|]. split; [exact A1|]. split; [exact A2|]. split; [exact A3|]. split; [exact A4|]. split; [exact A5|].
   destruct P as [P|[P|[Pc Pin]]]; [now left|right; now left|]. right. right. split; [exact Pc|].
   destruct Pin as [E|Hin]; [|exact Hin]. exfalso. apply (Hnone h s Hs). injection E as E1 E2. destruct (s_pos s). cbn in *. congruence.
 Qed.
+
+Lemma gchunk_set b c k c' : (c' = c -> gchunk k) -> (c' <> c -> gchunk (chunk_at b c')) -> gchunk (chunk_at (set_chunk b c k) c').
+Proof.
+  intros H1 H2. destruct (Nat.eq_dec c c') as [<-|Hne]; [rewrite chunk_at_set_same; now apply H1|].
+  rewrite chunk_at_set_other by exact Hne. apply H2. congruence.
+Qed.
+
+(* the destination is full: end writing there, move on to the next chunk *)
+Lemma gi_switch st src off r R' :
+  GI st src ((off, r) :: R') ->
+  c_filemax cf < dsize r + k_whead (chunk_at (gc_b st) (gc_dst st)) ->
+  let D := gc_dst st in
+  GI (mkGC (begin_gc_writing (trydump (end_gc_writing (gc_b st) D) D true) (S D) src) (S D) (gc_stat st)) src ((off, r) :: R') /\
+  k_whead (chunk_at (begin_gc_writing (trydump (end_gc_writing (gc_b st) D) D true) (S D) src) (S D)) = 0 /\
+  (forall h, tree_get_slot (begin_gc_writing (trydump (end_gc_writing (gc_b st) D) D true) (S D) src) h = tree_get_slot (gc_b st) h).
+Proof.
+  intros (G1 & G2 & G3 & G4 & G5 & G6 & G7 & G8 & G9 & G10 & G11 & G12 & G13 & G14 & G15 & G16) Hfull. cbv zeta in *.
+  set (b := gc_b st) in *. set (D := gc_dst st) in *. set (kd := chunk_at b D) in *. set (W := k_whead kd) in *.
+  assert (HDlt : (D < H0)%nat) by lia.
+  (* an in-place destination can never be full *)
+  assert (HDsrc : D <> src).
+  { intros E. pose proof (G11 E (off, r) (or_introl eq_refl)) as Hw. cbn [fst] in Hw.
+    destruct (G13 src (off, r) G6 (G10 _ (or_introl eq_refl))) as [Hfm _]. unfold rend in Hfm. cbn [fst snd] in Hfm. fold W in Hfull. lia. }
+  assert (HDs : (D < src)%nat) by lia.
+  destruct (end_gc_chunk_facts kd (G4 D HDlt) G7 G8) as (E1 & E2 & E3 & E4 & _ & E6). cbv zeta in E1, E2, E3, E4, E6.
+  rewrite end_gc_eq. fold kd.
+  set (b1 := set_chunk b D (end_gc_chunk kd)).
+  pose proof (trydump_core b1 D true) as Hcore. set (b2 := trydump b1 D true) in *.
+  assert (Hc2 : forall c, chunk_at b2 c = chunk_at b1 c) by (intros c; apply (core_chunk_at b2 b1 c Hcore)).
+  rewrite begin_gc_eq. set (kn := chunk_at b2 (S D)).
+  set (b3 := set_chunk b2 (S D) (begin_gc_chunk kn (Nat.eqb (S D) src))).
+  (* the next chunk: either the source itself or an emptied chunk *)
+  assert (Hkn : kn = chunk_at b (S D)).
+  { unfold kn. rewrite Hc2. unfold b1. apply chunk_at_set_other. lia. }
+  assert (HSD : (S D < H0)%nat) by lia.
+  destruct (begin_gc_chunk_facts kn (Nat.eqb (S D) src)) as (B1 & B2 & B3 & B4 & B5); [rewrite Hkn; apply G4; lia|].
+  cbv zeta in B1, B2, B3, B4, B5.
+  assert (Hch3 : forall c, chunk_at b3 c = if Nat.eqb c (S D) then begin_gc_chunk kn (Nat.eqb (S D) src)
+                                        else if Nat.eqb c D then end_gc_chunk kd else chunk_at b c).
+  { intros c. unfold b3. destruct (Nat.eqb_spec c (S D)) as [->|H1]; [apply chunk_at_set_same|].
+    rewrite chunk_at_set_other by congruence. rewrite Hc2. unfold b1.
+    destruct (Nat.eqb_spec c D) as [->|H2]; [apply chunk_at_set_same|]. apply chunk_at_set_other. congruence. }
+  assert (Hdisk3 : forall c e, In e (k_disk (chunk_at b3 c)) -> In e (k_disk (chunk_at b c))).
+  { intros c e. rewrite Hch3. destruct (Nat.eqb_spec c (S D)) as [->|H1]; [rewrite B3, Hkn; auto|].
+    destruct (Nat.eqb_spec c D) as [->|H2]; [apply E4|auto]. }
+  (* every referenced record survives *)
+  assert (Hlog3 : forall p r0, log_find b p = Some r0 -> (p_chunk p = D -> p_off p + dsize r0 <= W) -> log_find b3 p = Some r0).
+  { intros p r0 Hl Hp. unfold log_find in *. rewrite Hch3.
+    destruct (Nat.eqb_spec (p_chunk p) (S D)) as [E|H1].
+    - unfold all_recs in *. rewrite B3, (proj1 B1), Hkn. rewrite E in Hl. rewrite (proj1 (G4 (S D) HSD)) in Hl. exact Hl.
+    - destruct (Nat.eqb_spec (p_chunk p) D) as [E|H2]; [|exact Hl].
+      unfold all_recs in *. rewrite (proj1 E1), app_nil_r. rewrite E in Hl. rewrite (proj1 (G4 D HDlt)), app_nil_r in Hl.
+      destruct E1 as (_ & _ & End & _). apply find_off_in_nodup; [exact End|]. apply E3; [now apply find_off_some_in|auto]. }
+  unfold GI. cbn [gc_b gc_dst gc_stat]. fold b3.
+  assert (HW3 : k_whead (chunk_at b3 (S D)) = if Nat.eqb (S D) src then 0 else k_size kn).
+  { rewrite Hch3, Nat.eqb_refl. exact B5. }
+  assert (Hempty : S D <> src -> k_disk kn = [] /\ k_size kn = 0) by (intros Hne; rewrite Hkn; apply G9; lia).
+  split; [|split; [rewrite HW3; destruct (Nat.eqb_spec (S D) src) as [_|Hne]; [reflexivity|apply (Hempty Hne)]|
+                   intros h; change (tree_get_slot b3 h) with (tree_get_slot b2 h); rewrite (core_tree b2 b1 h Hcore); reflexivity]].
+  split; [change (b_head b3) with (b_head b2); rewrite (core_head b2 b1 Hcore); exact G1|].
+  split; [change (b_ctab b3) with (b_ctab b2); rewrite (core_ctab b2 b1 Hcore); exact G2|].
+  split; [|split; [|split; [lia|split; [exact G6|split; [|split; [|split; [|split; [|split; [|split; [exact G12|split; [|split; [|split]]]]]]]]]]]].
+  - intros c Hc. rewrite Hch3. replace (Nat.eqb c (S D)) with false by (symmetry; apply Nat.eqb_neq; lia).
+    replace (Nat.eqb c D) with false by (symmetry; apply Nat.eqb_neq; lia). now apply G3.
+  - intros c Hc. rewrite Hch3. destruct (Nat.eqb c (S D)); [exact B1|]. destruct (Nat.eqb c D); [exact E1|now apply G4].
+  - rewrite Hch3, Nat.eqb_refl. exact B2.
+  - rewrite HW3, Hch3, Nat.eqb_refl, B4. destruct (Nat.eqb (S D) src); lia.
+  - intros c Hc. rewrite Hch3. replace (Nat.eqb c (S D)) with false by (symmetry; apply Nat.eqb_neq; lia).
+    replace (Nat.eqb c D) with false by (symmetry; apply Nat.eqb_neq; lia). apply G9. lia.
+  - intros e He. rewrite Hch3. destruct (Nat.eqb_spec src (S D)) as [E|Hne].
+    + rewrite B3, Hkn, <- E. now apply G10.
+    + replace (Nat.eqb src D) with false by (symmetry; apply Nat.eqb_neq; lia). now apply G10.
+  - intros E e He. rewrite HW3, E, Nat.eqb_refl. lia.
+  - intros c e Hc He. apply (G13 c e Hc). now apply Hdisk3.
+  - apply (iok_hints_same hf K b2); [reflexivity|]. apply iok_trydump. apply (iok_hints_same hf K b); [reflexivity|exact G14].
+  - intros h s Hs.
+    assert (Hs0 : tree_get_slot b h = Some s).
+    { change (tree_get_slot b3 h) with (tree_get_slot b2 h) in Hs. rewrite (core_tree b2 b1 h Hcore) in Hs. exact Hs. }
+    destruct (G15 h s Hs0) as (r0 & L & A1 & A2 & A3 & A4 & A5 & P). exists r0.
+    assert (HPd : p_chunk (s_pos s) = D -> p_off (s_pos s) + dsize r0 <= W).
+    { intros E. destruct P as [[P _]|[[_ P]|[P _]]]; [congruence|exact P|congruence]. }
+    split; [now apply Hlog3|]. split; [exact A1|]. split; [exact A2|]. split; [exact A3|]. split; [exact A4|]. split; [exact A5|].
+    (* the slot cannot point into the new destination unless that is the source *)
+    destruct P as [[P1 P2]|[[P1 P2]|[P1 P2]]].
+    + left. split; [|exact P2]. intros E. destruct (Nat.eq_dec (S D) src) as [Es|Hne]; [congruence|].
+      destruct (Hempty Hne) as [Hd _]. unfold log_find in L. rewrite E in L. unfold all_recs in L. rewrite <- Hkn, Hd in L.
+      rewrite Hkn, (proj1 (G4 (S D) HSD)) in L. discriminate.
+    + left. split; lia.
+    + right. right. split; assumption.
+  - intros k Hk. rewrite <- (G16 k Hk). unfold abs.
+    change (tree_get_slot b3 (hf k)) with (tree_get_slot b2 (hf k)). rewrite (core_tree b2 b1 (hf k) Hcore).
+    change (tree_get_slot b1 (hf k)) with (tree_get_slot b (hf k)).
+    destruct (tree_get_slot b (hf k)) as [s|] eqn:Es; [|reflexivity].
+    destruct (G15 _ s Es) as (r0 & L & _ & _ & _ & _ & _ & P). rewrite L.
+    rewrite (Hlog3 _ r0 L); [reflexivity|]. intros E. destruct P as [[P _]|[[_ P]|[P _]]]; [congruence|exact P|congruence].
+Qed.
+
+(* the record is copied to the destination, the slot (if the tree knows the key) repointed, the hint written *)
+Lemma gi_append st src off r R' gs' vh :
+  GI st src ((off, r) :: R') ->
+  let b := gc_b st in let D := gc_dst st in let W := k_whead (chunk_at b D) in let h := hf (d_key r) in
+  dsize r + W <= c_filemax cf ->
+  (forall s, tree_get_slot b h = Some s -> s_pos s = mkPos src off) ->
+  let b2 := fst (append_gc b D r) in
+  let b3 := match tree_get_slot b h with Some s => tree_put b2 h (mkSlot (mkPos D W) (s_ver s) (s_vh s)) | None => b2 end in
+  GI (mkGC (hints_set cf b3 h (d_key r) (d_ver r) vh (mkPos D W) (dsize r) true) D gs') src R'.
+Proof.
+  intros (G1 & G2 & G3 & G4 & G5 & G6 & G7 & G8 & G9 & G10 & G11 & G12 & G13 & G14 & G15 & G16). cbv zeta in *.
+  set (b := gc_b st) in *. set (D := gc_dst st) in *. set (kd := chunk_at b D) in *. set (W := k_whead kd) in *. set (h := hf (d_key r)).
+  intros Hfit Hslot. pose proof (dsize_pos r) as Hsz.
+  assert (HDlt : (D < H0)%nat) by lia.
+  assert (Hin_e : In (off, r) (k_disk (chunk_at b src))) by (apply G10; now left).
+  destruct (G13 src (off, r) G6 Hin_e) as [Hfm_e Hk_e]. cbn [snd] in Hk_e.
+  assert (Hlog_e : log_find b (mkPos src off) = Some r).
+  { rewrite log_find_gchunk by (cbn [p_chunk]; now apply G4). cbn [p_chunk p_off]. apply find_off_in_nodup; [apply (G4 src G6)|exact Hin_e]. }
+  (* only the slot of this key can point at this record *)
+  assert (HU : forall h' s', tree_get_slot b h' = Some s' -> s_pos s' = mkPos src off -> h' = h).
+  { intros h' s' Hs' Hp. destruct (G15 h' s' Hs') as (r0 & L & A1 & _). rewrite Hp, Hlog_e in L. injection L as <-. now symmetry. }
+  destruct (append_gc_chunk_facts kd r (G4 D HDlt) G7) as (F1 & F2 & F3 & F4 & F5 & F6 & F7 & F8). cbv zeta in F1, F2, F3, F4, F5, F6, F7, F8.
+  rewrite append_gc_eq. cbn [fst]. fold kd.
+  set (b2 := set_chunk b D (append_gc_chunk kd r)).
+  (* rest of the source stays where it is *)
+  assert (Hrest : forall e, In e R' -> (D = src -> W + dsize r <= fst e)).
+  { intros e He E. pose proof (G11 E (off, r) (or_introl eq_refl)) as Hw. cbn [fst] in Hw.
+    unfold spaced in G12. inversion G12 as [|? ? _ Hx]; subst. rewrite Forall_forall in Hx. specialize (Hx e He). cbn [fst snd] in Hx. lia. }
+  assert (Hch2 : forall c, chunk_at b2 c = if Nat.eqb c D then append_gc_chunk kd r else chunk_at b c).
+  { intros c. unfold b2. destruct (Nat.eqb_spec c D) as [->|Hne]; [apply chunk_at_set_same|]. apply chunk_at_set_other. congruence. }
+  (* records that survive the append *)
+  assert (Hlog2 : forall p r0, log_find b p = Some r0 ->
+            (p_chunk p = D -> p_off p + dsize r0 <= W \/ W + dsize r <= p_off p) -> log_find b2 p = Some r0).
+  { intros p r0 Hl Hp. unfold log_find in *. rewrite Hch2. destruct (Nat.eqb_spec (p_chunk p) D) as [E|Hne]; [|exact Hl].
+    unfold all_recs in *. rewrite (proj1 F1), app_nil_r. rewrite E in Hl. rewrite (proj1 (G4 D HDlt)), app_nil_r in Hl.
+    destruct F1 as (_ & _ & Fnd & _). apply find_off_in_nodup; [exact Fnd|]. apply F5; [now apply find_off_some_in|auto]. }
+  assert (Hlog_new : log_find b2 (mkPos D W) = Some r).
+  { unfold log_find. cbn [p_chunk p_off]. rewrite Hch2, Nat.eqb_refl. unfold all_recs. rewrite (proj1 F1), app_nil_r. exact F4. }
+  (* where a protected position ends up *)
+  assert (Hprot : forall p r0, log_find b p = Some r0 -> Prot D W src ((off, r) :: R') p r0 -> p <> mkPos src off ->
+            log_find b2 p = Some r0 /\ Prot D (W + dsize r) src R' p r0).
+  { intros p r0 Hl P Hne. destruct P as [[P1 P2]|[[P1 P2]|[P1 P2]]].
+    - split; [apply Hlog2; [exact Hl|congruence]|now left].
+    - split; [apply Hlog2; [exact Hl|auto]|right; left; split; [exact P1|lia]].
+    - destruct P2 as [E|Hin]; [exfalso; apply Hne; injection E as E1 E2; destruct p; cbn in *; congruence|].
+      split; [|right; right; now split]. apply Hlog2; [exact Hl|]. intros E. right. apply (Hrest _ Hin). congruence. }
+  set (b3 := match tree_get_slot b h with Some s => tree_put b2 h (mkSlot (mkPos D W) (s_ver s) (s_vh s)) | None => b2 end).
+  assert (Hch3 : forall c, chunk_at b3 c = chunk_at b2 c) by (intros c; unfold b3; destruct (tree_get_slot b h); reflexivity).
+  assert (Hct3 : b_ctab b3 = []) by (unfold b3; destruct (tree_get_slot b h); exact G2).
+  unfold hints_set. replace (ct_has_hash (b_ctab b3) h) with false by (now rewrite Hct3).
+  set (it := mkHI h 0 (p_off (mkPos D W)) (d_ver r) vh (d_key r)).
+  pose proof (hints_set_item_core cf b3 it (p_chunk (mkPos D W)) (dsize r)) as Hcore.
+  set (b4 := hints_set_item cf b3 it (p_chunk (mkPos D W)) (dsize r)) in *.
+  assert (Hch4 : forall c, chunk_at b4 c = chunk_at b2 c) by (intros c; rewrite (core_chunk_at b4 b3 c Hcore); apply Hch3).
+  assert (Hlog4 : forall p, log_find b4 p = log_find b2 p) by (intros p; unfold log_find; now rewrite Hch4).
+  assert (Htree4 : forall h', tree_get_slot b4 h' = tree_get_slot b3 h') by (intros h'; apply (core_tree b4 b3 h' Hcore)).
+  assert (Htree3 : forall h', h' <> h -> tree_get_slot b3 h' = tree_get_slot b h').
+  { intros h' Hne. unfold b3. destruct (tree_get_slot b h); [|reflexivity]. rewrite tree_put_other by congruence. reflexivity. }
+  unfold GI. cbn [gc_b gc_dst].
+  assert (HW4 : k_whead (chunk_at b4 D) = W + dsize r) by (rewrite Hch4, Hch2, Nat.eqb_refl; exact F3).
+  rewrite HW4.
+  split; [rewrite (core_head b4 b3 Hcore); unfold b3; destruct (tree_get_slot b h); exact G1|].
+  split; [rewrite (core_ctab b4 b3 Hcore); exact Hct3|].
+  split; [|split; [|split; [exact G5|split; [exact G6|split; [|split; [|split; [|split; [|split; [|split; [|split; [|split; [|split]]]]]]]]]]]].
+  - intros c Hc. rewrite Hch4, Hch2. replace (Nat.eqb c D) with false by (symmetry; apply Nat.eqb_neq; lia). now apply G3.
+  - intros c Hc. rewrite Hch4, Hch2. destruct (Nat.eqb c D); [exact F1|now apply G4].
+  - rewrite Hch4, Hch2, Nat.eqb_refl. exact F2.
+  - rewrite Hch4, Hch2, Nat.eqb_refl. unfold append_gc_chunk. cbn [k_size]. fold W. destruct (k_size kd <=? W + dsize r) eqn:E; lia.
+  - intros c Hc. rewrite Hch4, Hch2. replace (Nat.eqb c D) with false by (symmetry; apply Nat.eqb_neq; lia). apply G9. exact Hc.
+  - intros e He. rewrite Hch4, Hch2. destruct (Nat.eqb_spec src D) as [E|Hne]; [|apply G10; now right].
+    destruct e as [o r0]. apply F5; [unfold kd; rewrite <- E; apply G10; now right|]. right. apply (Hrest _ He). now symmetry.
+  - intros E e He. apply (Hrest _ He E).
+  - unfold spaced in *. now inversion G12.
+  - intros c e Hc He. rewrite Hch4, Hch2 in He. destruct (Nat.eqb_spec c D) as [->|Hne]; [|now apply (G13 c)].
+    destruct e as [o r0]. destruct (F6 o r0 He) as [E|Hold]; [|now apply (G13 D)].
+    injection E as -> ->. split; [unfold rend; cbn [fst snd]; fold W; lia|exact Hk_e].
+  - apply iok_set_item; [|unfold item_ok, it; cbn [hi_key hi_hash]; auto].
+    apply (iok_hints_same hf K b); [unfold b3; destruct (tree_get_slot b h); reflexivity|exact G14].
+  - intros h' s' Hs'. rewrite Htree4 in Hs'. unfold SlotP. rewrite Hlog4.
+    destruct (N.eq_dec h' h) as [->|Hne].
+    + (* the relocated key *)
+      unfold b3 in Hs'. destruct (tree_get_slot b h) as [s|] eqn:Es.
+      * rewrite tree_put_same in Hs'. injection Hs' as <-. cbn [s_pos s_ver s_vh].
+        destruct (G15 h s Es) as (r0 & L & A1 & A2 & A3 & A4 & A5 & _). rewrite (Hslot s eq_refl), Hlog_e in L. injection L as <-.
+        exists r. split; [exact Hlog_new|]. split; [reflexivity|]. split; [exact A2|]. split; [exact A3|]. split; [exact A4|]. split; [exact A5|].
+        right. left. cbn [p_chunk p_off]. split; [reflexivity|lia].
+      * change (tree_get_slot b2 h) with (tree_get_slot b h) in Hs'. congruence.
+    + rewrite Htree3 in Hs' by exact Hne. destruct (G15 h' s' Hs') as (r0 & L & A1 & A2 & A3 & A4 & A5 & P).
+      assert (Hnp : s_pos s' <> mkPos src off) by (intros E; apply Hne; now apply (HU h' s')).
+      destruct (Hprot _ r0 L P Hnp) as [L2 P2]. exists r0. repeat (split; [assumption|]). exact P2.
+  - intros k Hk. rewrite <- (G16 k Hk). unfold abs. rewrite Htree4.
+    destruct (N.eq_dec (hf k) h) as [E|Hne].
+    + rewrite E. unfold b3. destruct (tree_get_slot b h) as [s|] eqn:Es; [|change (tree_get_slot b2 h) with (tree_get_slot b h); now rewrite Es].
+      rewrite tree_put_same. cbn [s_pos s_ver]. rewrite Hlog4, Hlog_new. rewrite (Hslot s eq_refl), Hlog_e. reflexivity.
+    + rewrite Htree3 by exact Hne. destruct (tree_get_slot b (hf k)) as [s|] eqn:Es; [|reflexivity].
+      destruct (G15 _ s Es) as (r0 & L & _ & _ & _ & _ & _ & P).
+      assert (Hnp : s_pos s <> mkPos src off) by (intros E; apply Hne; now apply (HU _ s)).
+      destruct (Hprot _ r0 L P Hnp) as [L2 _]. now rewrite Hlog4, L2, L.
+Qed.
+
+Lemma pos_eqb_true a b : pos_eqb a b = true <-> a = b.
+Proof. apply pos_eqb_eq. Qed.
+
+(* ---- one record of a source file ---- *)
+Lemma gc_record_inv st src e R' : GI st src (e :: R') -> GI (gc_record cf hf begin_ src st e) src R'.
+Proof.
+  intros HG. destruct e as [off r]. pose proof HG as (G1 & G2 & G3 & G4 & G5 & G6 & G7 & G8 & G9 & G10 & G11 & G12 & G13 & G14 & G15 & G16).
+  cbv zeta in G1, G2, G3, G4, G5, G6, G7, G8, G9, G10, G11, G12, G13, G14, G15, G16.
+  set (b := gc_b st) in *. set (D := gc_dst st) in *. set (h := hf (d_key r)). set (oldp := mkPos src off).
+  assert (Hin_e : In (off, r) (k_disk (chunk_at b src))) by (apply G10; now left).
+  destruct (G13 src (off, r) G6 Hin_e) as [Hfm_e Hk_e]. cbn [snd] in Hk_e. unfold rend in Hfm_e. cbn [fst snd] in Hfm_e.
+  assert (Hlog_e : log_find b oldp = Some r).
+  { rewrite log_find_gchunk by (cbn [p_chunk]; now apply G4). cbn [p_chunk p_off]. apply find_off_in_nodup; [apply (G4 src G6)|exact Hin_e]. }
+  assert (HU : forall h' s', tree_get_slot b h' = Some s' -> s_pos s' = oldp -> h' = h).
+  { intros h' s' Hs' Hp. destruct (G15 h' s' Hs') as (r0 & L & A1 & _). rewrite Hp, Hlog_e in L. injection L as <-. now symmetry. }
+  (* the copy, whatever statistics and value hash go with it *)
+  assert (Hcopy : forall gs' vh, (forall s, tree_get_slot b h = Some s -> s_pos s = oldp) ->
+     GI (let '(b1, dst) := if c_filemax cf <? dsize r + k_whead (chunk_at b D)
+                           then (begin_gc_writing (trydump (end_gc_writing b D) D true) (S D) src, S D) else (b, D) in
+         let '(b2, noff) := append_gc b1 dst r in
+         let b3 := match tree_get_slot b h with
+                   | Some _ => match tree_get_slot b2 h with
+                               | Some s => if gc_repoint_conditional && negb (pos_eqb (s_pos s) oldp) then b2
+                                           else tree_put b2 h (mkSlot (mkPos dst noff) (s_ver s) (s_vh s))
+                               | None => b2 end
+                   | None => b2 end in
+         mkGC (hints_set cf b3 h (d_key r) (d_ver r) vh (mkPos dst noff) (dsize r) true) dst gs') src R').
+  { intros gs' vh Hslot. destruct (c_filemax cf <? dsize r + k_whead (chunk_at b D)) eqn:Efull.
+    - destruct (gi_switch st src off r R' HG ltac:(fold b D; lia)) as (HS & HW0 & Htr). cbv zeta in HS, HW0, Htr. fold b D in HS, HW0, Htr.
+      set (b1 := begin_gc_writing (trydump (end_gc_writing b D) D true) (S D) src) in *.
+      pose proof (gi_append (mkGC b1 (S D) (gc_stat st)) src off r R' gs' vh HS) as HA. cbv zeta in HA. cbn [gc_b gc_dst] in HA.
+      rewrite HW0 in HA. specialize (HA ltac:(lia)).
+      rewrite append_gc_eq. rewrite append_gc_eq in HA. cbn [fst] in HA. rewrite HW0 in *.
+      change (tree_get_slot (set_chunk b1 (S D) (append_gc_chunk (chunk_at b1 (S D)) r)) h) with (tree_get_slot b1 h). rewrite !Htr in *.
+      fold h in HA. destruct (tree_get_slot b h) as [s|] eqn:Es.
+      + rewrite (Hslot s eq_refl). replace (pos_eqb oldp oldp) with true by (symmetry; now apply pos_eqb_true). rewrite andb_false_r. cbn [negb].
+        apply HA. intros s' Hs'. injection Hs' as <-. now apply Hslot.
+      + apply HA. intros s' Hs'. discriminate.
+    - pose proof (gi_append st src off r R' gs' vh HG) as HA. cbv zeta in HA. fold b D in HA.
+      specialize (HA ltac:(lia)). rewrite append_gc_eq. rewrite append_gc_eq in HA. cbn [fst] in HA.
+      change (tree_get_slot (set_chunk b D (append_gc_chunk (chunk_at b D) r)) h) with (tree_get_slot b h).
+      fold h in HA. destruct (tree_get_slot b h) as [s|] eqn:Es.
+      + rewrite (Hslot s eq_refl). replace (pos_eqb oldp oldp) with true by (symmetry; now apply pos_eqb_true). rewrite andb_false_r. cbn [negb].
+        apply HA. intros s' Hs'. injection Hs' as <-. now apply Hslot.
+      + apply HA. intros s' Hs'. discriminate. }
+  unfold gc_record. fold b D h oldp.
+  destruct (tree_get_slot b h) as [s|] eqn:Es.
+  - destruct (pos_eqb oldp (s_pos s)) eqn:Ep.
+    + (* the tree points at this record *)
+      cbn [negb]. apply pos_eqb_true in Ep. apply Hcopy. intros s' Hs'. injection Hs' as <-. now symmetry.
+    + (* the tree points elsewhere and no collision can be reported: superseded *)
+      pose proof (no_collision hf K hf_inj b h (d_key r) G14 G2 Hk_e eq_refl) as Hnc.
+      destruct (get_collision_gc b h (d_key r)) as [x c]. cbn [snd] in Hnc. subst c.
+      assert (Hdrop : forall gs', GI (mkGC b D gs') src R').
+      { intros gs'. apply (gi_drop st gs' src off r R' HG). intros h' s' Hs' Hp. fold b in Hs'.
+        assert (h' = h) by (now apply (HU h' s')). subst h'. rewrite Es in Hs'. injection Hs' as <-.
+        fold oldp in Hp. rewrite Hp in Ep. assert (pos_eqb oldp oldp = true) by (now apply pos_eqb_true). congruence. }
+      destruct x as [[it ck]|]; cbn [negb]; apply Hdrop.
+  - destruct (Nat.ltb 0 begin_ && (d_ver r <? 0)%Z) eqn:En; cbn [negb].
+    + apply Hcopy. intros s' Hs'. discriminate.
+    + apply (gi_drop st _ src off r R' HG). intros h' s' Hs' Hp. fold b in Hs'.
+      assert (h' = h) by (now apply (HU h' s')). subst h'. congruence.
+Qed.
+
+Lemma gc_records_inv src : forall recs st, GI st src recs -> GI (fold_left (gc_record cf hf begin_ src) recs st) src [].
+Proof.
+  induction recs as [|e recs IH]; intros st HG; cbn [fold_left]; [exact HG|]. apply IH. now apply gc_record_inv.
+Qed.
+
+(* ---- chunk-level side invariant: the destination is either being rewritten in place or appended to at its
+   end, and every other chunk below the head is in its normal form ---- *)
+Definition GX (st : gcst) : Prop :=
+  let b := gc_b st in let D := gc_dst st in
+  (k_rewriting (chunk_at b D) = true \/ k_whead (chunk_at b D) = k_size (chunk_at b D)) /\
+  (forall c, (c < H0)%nat -> c <> D -> chunk_ok (chunk_at b c)).
+
+Lemma chunk_ok_of_g k : gchunk k -> Forall (fun e => rend e <= k_whead k) (k_disk k) -> chunk_ok k.
+Proof.
+  intros (Hw & He & _ & _) Hall. unfold chunk_ok, wstart. rewrite Hw. split; [|split; [intros o r0 []|split; [exact He|lia]]].
+  intros o r0 Hin. rewrite Forall_forall in Hall. specialize (Hall _ Hin). unfold rend in Hall. cbn [fst snd] in Hall. pose proof (dsize_pos r0). lia.
+Qed.
+
+Lemma gx_record st src e R' : GI st src (e :: R') -> GX st -> GX (gc_record cf hf begin_ src st e).
+Proof.
+  intros HG [X1 X2]. destruct e as [off r]. pose proof HG as (G1 & G2 & G3 & G4 & G5 & G6 & G7 & G8 & _).
+  cbv zeta in G1, G2, G3, G4, G5, G6, G7, G8, X1, X2.
+  set (b := gc_b st) in *. set (D := gc_dst st) in *.
+  assert (HDlt : (D < H0)%nat) by lia.
+  (* the data side of the copy *)
+  assert (Hcopy : forall gs' vh b3f,
+     (forall x d n, b_chunks (b3f x d n) = b_chunks x) ->
+     GX (let '(b1, dst) := if c_filemax cf <? dsize r + k_whead (chunk_at b D)
+                           then (begin_gc_writing (trydump (end_gc_writing b D) D true) (S D) src, S D) else (b, D) in
+         let '(b2, noff) := append_gc b1 dst r in
+         mkGC (hints_set cf (b3f b2 dst noff) (hf (d_key r)) (d_key r) (d_ver r) vh (mkPos dst noff) (dsize r) true) dst gs')).
+  { intros gs' vh b3f Hb3f.
+    assert (Hfin : forall b1 dst, (k_rewriting (chunk_at b1 dst) = true \/ k_whead (chunk_at b1 dst) = k_size (chunk_at b1 dst)) ->
+              (forall c, (c < H0)%nat -> c <> dst -> chunk_ok (chunk_at b1 c)) ->
+              GX (let '(b2, noff) := append_gc b1 dst r in
+                  mkGC (hints_set cf (b3f b2 dst noff) (hf (d_key r)) (d_key r) (d_ver r) vh (mkPos dst noff) (dsize r) true) dst gs')).
+    { intros b1 dst Y1 Y2. rewrite append_gc_eq. unfold GX. cbn [gc_b gc_dst].
+      set (b2 := set_chunk b1 dst (append_gc_chunk (chunk_at b1 dst) r)).
+      assert (Hc : forall c, chunk_at (hints_set cf (b3f b2 dst (k_whead (chunk_at b1 dst))) (hf (d_key r)) (d_key r) (d_ver r) vh (mkPos dst (k_whead (chunk_at b1 dst))) (dsize r) true) c = chunk_at b2 c).
+      { intros c. generalize (mkPos dst (k_whead (chunk_at b1 dst))). intros pp. generalize (k_whead (chunk_at b1 dst)). intros nn.
+        pose proof (hints_set_dat cf (b3f b2 dst nn) (hf (d_key r)) (d_key r) (d_ver r) vh pp (dsize r) true) as Hd.
+        unfold dat in Hd. injection Hd as Hd _. unfold chunk_at. now rewrite Hd, Hb3f. }
+      split.
+      - rewrite Hc. unfold b2. rewrite chunk_at_set_same. unfold append_gc_chunk. cbn [k_rewriting k_whead k_size].
+        destruct Y1 as [Y1|Y1]; [now left|right]. rewrite Y1. replace (k_size (chunk_at b1 dst) <=? k_size (chunk_at b1 dst) + dsize r) with true by lia. reflexivity.
+      - intros c Hc1 Hc2. rewrite Hc. unfold b2. rewrite chunk_at_set_other by congruence. now apply Y2. }
+    destruct (c_filemax cf <? dsize r + k_whead (chunk_at b D)) eqn:Efull.
+    - (* switch *)
+      rewrite end_gc_eq, begin_gc_eq.
+      set (b1 := set_chunk b D (end_gc_chunk (chunk_at b D))).
+      pose proof (trydump_core b1 D true) as Hcore. set (b2 := trydump b1 D true) in *.
+      assert (Hc2 : forall c, chunk_at b2 c = chunk_at b1 c) by (intros c; apply (core_chunk_at b2 b1 c Hcore)).
+      apply Hfin.
+      + rewrite chunk_at_set_same. unfold begin_gc_chunk. destruct (Nat.eqb (S D) src); cbn [k_rewriting k_whead k_size]; [now left|now right].
+      + intros c Hc1 Hc2'. rewrite chunk_at_set_other by congruence. rewrite Hc2. unfold b1.
+        destruct (Nat.eq_dec D c) as [<-|Hne]; [|rewrite chunk_at_set_other by exact Hne; apply X2; [exact Hc1|congruence]].
+        rewrite chunk_at_set_same.
+        destruct (end_gc_chunk_facts (chunk_at b D) (G4 D HDlt) G7 G8) as (E1 & _ & _ & _ & E5 & _). cbv zeta in E1, E5.
+        destruct (E5 X1) as [E5a _]. now apply chunk_ok_of_g.
+    - now apply Hfin. }
+  unfold gc_record. fold b D.
+  destruct (tree_get_slot b (hf (d_key r))) as [s|] eqn:Es.
+  - destruct (pos_eqb (mkPos src off) (s_pos s)).
+    + cbn [negb]. apply (Hcopy _ _ (fun b2 dst noff => match tree_get_slot b2 (hf (d_key r)) with
+                                         | Some s0 => if gc_repoint_conditional && negb (pos_eqb (s_pos s0) (mkPos src off)) then b2
+                                                      else tree_put b2 (hf (d_key r)) (mkSlot (mkPos dst noff) (s_ver s0) (s_vh s0))
+                                         | None => b2 end)).
+      intros x d n. destruct (tree_get_slot x _); [destruct (_ && _)|]; reflexivity.
+    + destruct (get_collision_gc b (hf (d_key r)) (d_key r)) as [[[it ck]|] [|]]; try (cbn [negb]; split; assumption).
+      * destruct (pos_eqb _ _); cbn [negb]; [|split; assumption].
+        apply (Hcopy _ _ (fun b2 dst noff => match tree_get_slot b2 (hf (d_key r)) with
+                                    | Some s0 => if gc_repoint_conditional && negb (pos_eqb (s_pos s0) (mkPos src off)) then b2
+                                                 else tree_put b2 (hf (d_key r)) (mkSlot (mkPos dst noff) (s_ver s0) (s_vh s0))
+                                    | None => b2 end)).
+        intros x d n. destruct (tree_get_slot x _); [destruct (_ && _)|]; reflexivity.
+      * cbn [negb]. apply (Hcopy _ _ (fun b2 dst noff => match tree_get_slot b2 (hf (d_key r)) with
+                                    | Some s0 => if gc_repoint_conditional && negb (pos_eqb (s_pos s0) (mkPos src off)) then b2
+                                                 else tree_put b2 (hf (d_key r)) (mkSlot (mkPos dst noff) (s_ver s0) (s_vh s0))
+                                    | None => b2 end)).
+        intros x d n. destruct (tree_get_slot x _); [destruct (_ && _)|]; reflexivity.
+  - destruct (_ && _); cbn [negb]; [|split; assumption]. apply (Hcopy _ _ (fun b2 _ _ => b2)). reflexivity.
+Qed.
+
+Lemma gc_records_both src : forall recs st, GI st src recs -> GX st ->
+  GI (fold_left (gc_record cf hf begin_ src) recs st) src [] /\ GX (fold_left (gc_record cf hf begin_ src) recs st).
+Proof.
+  induction recs as [|e recs IH]; intros st HG HX; cbn [fold_left]; [split; assumption|].
+  apply IH; [now apply gc_record_inv|now apply (gx_record st src e recs)].
+Qed.
+
+(* GI only looks at chunks, head, tree, collision table and the hint items *)
+Lemma gi_frame b' D stat' st src R :
+  gc_dst st = D -> core b' = core (gc_b st) -> IOK hf K b' -> GI st src R -> GI (mkGC b' D stat') src R.
+Proof.
+  intros HD Hcore Hiok (G1 & G2 & G3 & G4 & G5 & G6 & G7 & G8 & G9 & G10 & G11 & G12 & G13 & G14 & G15 & G16). cbv zeta in *.
+  assert (Hca : forall c, chunk_at b' c = chunk_at (gc_b st) c) by (intros c; apply (core_chunk_at _ _ c Hcore)).
+  assert (Hlf : forall p, log_find b' p = log_find (gc_b st) p) by (intros p; apply (log_find_core _ _ p Hcore)).
+  assert (Htr : forall h, tree_get_slot b' h = tree_get_slot (gc_b st) h) by (intros h; apply (core_tree _ _ h Hcore)).
+  unfold GI. cbn [gc_b gc_dst]. subst D. rewrite !Hca.
+  split; [rewrite (core_head _ _ Hcore); exact G1|]. split; [rewrite (core_ctab _ _ Hcore); exact G2|].
+  split; [intros c Hc; rewrite Hca; now apply G3|]. split; [intros c Hc; rewrite Hca; now apply G4|].
+  split; [exact G5|]. split; [exact G6|]. split; [exact G7|]. split; [exact G8|].
+  split; [intros c Hc; rewrite Hca; now apply G9|]. split; [exact G10|]. split; [exact G11|]. split; [exact G12|].
+  split; [intros c e Hc He; rewrite Hca in He; now apply (G13 c)|]. split; [exact Hiok|]. split.
+  - intros h s Hs. rewrite Htr in Hs. destruct (G15 h s Hs) as (r0 & L & Hrest). exists r0. rewrite Hlf. auto.
+  - intros k Hk. rewrite <- (G16 k Hk). apply abs_core. exact Hcore.
+Qed.
+
+Lemma gx_frame b' D stat' st : gc_dst st = D -> (forall c, chunk_at b' c = chunk_at (gc_b st) c) -> GX st -> GX (mkGC b' D stat').
+Proof. intros HD Hca [X1 X2]. unfold GX. cbn [gc_b gc_dst]. subst D. rewrite Hca. split; [exact X1|]. intros c H1 H2. rewrite Hca. now apply X2. Qed.
+
+(* the emptied source file is removed *)
+Lemma gi_clear st src stat' : GI st src [] -> gc_dst st <> src -> GI (mkGC (clear_chunk (gc_b st) src) (gc_dst st) stat') src [].
+Proof.
+  intros (G1 & G2 & G3 & G4 & G5 & G6 & G7 & G8 & G9 & G10 & G11 & G12 & G13 & G14 & G15 & G16) Hne. cbv zeta in *.
+  set (b := gc_b st) in *. set (D := gc_dst st) in *. unfold clear_chunk.
+  assert (Hca : forall c, chunk_at (set_chunk b src chunk0) c = if Nat.eqb c src then chunk0 else chunk_at b c).
+  { intros c. destruct (Nat.eqb_spec c src) as [->|H]; [apply chunk_at_set_same|]. apply chunk_at_set_other. congruence. }
+  assert (HnoS : forall h s, tree_get_slot b h = Some s -> p_chunk (s_pos s) <> src).
+  { intros h s Hs. destruct (G15 h s Hs) as (r0 & _ & _ & _ & _ & _ & _ & P). destruct P as [[_ P]|[[P _]|[_ []]]]; congruence. }
+  unfold GI. cbn [gc_b gc_dst]. rewrite !Hca. replace (Nat.eqb D src) with false by (symmetry; apply Nat.eqb_neq; exact Hne).
+  split; [exact G1|]. split; [exact G2|].
+  split; [intros c Hc; rewrite Hca; replace (Nat.eqb c src) with false by (symmetry; apply Nat.eqb_neq; lia); now apply G3|].
+  split; [intros c Hc; rewrite Hca; destruct (Nat.eqb c src); [repeat split; try reflexivity; constructor|now apply G4]|].
+  split; [exact G5|]. split; [exact G6|]. split; [exact G7|]. split; [exact G8|].
+  split; [intros c Hc; rewrite Hca; replace (Nat.eqb c src) with false by (symmetry; apply Nat.eqb_neq; lia); now apply G9|].
+  split; [intros e []|]. split; [intros _ e []|]. split; [constructor|].
+  split; [intros c e Hc He; rewrite Hca in He; destruct (Nat.eqb c src); [destruct He|now apply (G13 c)]|].
+  split; [apply (iok_hints_same hf K b); [reflexivity|exact G14]|]. split.
+  - intros h s Hs. change (tree_get_slot (set_chunk b src chunk0) h) with (tree_get_slot b h) in Hs.
+    destruct (G15 h s Hs) as (r0 & L & A). exists r0. split; [|exact A]. rewrite log_find_set_other; [exact L|now apply (HnoS h s)].
+  - intros k Hk. rewrite <- (G16 k Hk). unfold abs. change (tree_get_slot (set_chunk b src chunk0) (hf k)) with (tree_get_slot b (hf k)).
+    destruct (tree_get_slot b (hf k)) as [s|] eqn:Es; [|reflexivity]. rewrite log_find_set_other; [reflexivity|now apply (HnoS (hf k) s)].
+Qed.
+
+(* on to the next source file *)
+Lemma gi_next st src : GI st src [] ->
+  (gc_dst st <> src -> k_disk (chunk_at (gc_b st) src) = [] /\ k_size (chunk_at (gc_b st) src) = 0) ->
+  (S src < H0)%nat -> spaced (k_disk (chunk_at b0 (S src))) ->
+  GI st (S src) (k_disk (chunk_at (gc_b st) (S src))).
+Proof.
+  intros (G1 & G2 & G3 & G4 & G5 & G6 & G7 & G8 & G9 & G10 & G11 & G12 & G13 & G14 & G15 & G16) Hemp Hlt Hsp. cbv zeta in *.
+  set (b := gc_b st) in *. set (D := gc_dst st) in *.
+  unfold GI. fold b D.
+  split; [exact G1|]. split; [exact G2|]. split; [intros c Hc; apply G3; lia|]. split; [exact G4|]. split; [lia|]. split; [exact Hlt|].
+  split; [exact G7|]. split; [exact G8|]. split.
+  { intros c Hc. destruct (Nat.eq_dec c src) as [->|Hne]; [apply Hemp; lia|apply G9; lia]. }
+  split; [auto|]. split; [intros E; lia|]. split; [rewrite G3 by (right; lia); exact Hsp|]. split; [exact G13|]. split; [exact G14|]. split; [|exact G16].
+  intros h s Hs. destruct (G15 h s Hs) as (r0 & L & A1 & A2 & A3 & A4 & A5 & P). exists r0. repeat (split; [assumption|]).
+  destruct P as [[P1 P2]|[[P1 P2]|[_ []]]]; [|right; left; now split].
+  destruct (Nat.eq_dec (p_chunk (s_pos s)) (S src)) as [E|Hne]; [|left; now split].
+  right. right. split; [exact E|]. rewrite log_find_gchunk in L by (rewrite E; now apply G4). rewrite E in L. now apply find_off_some_in.
+Qed.
+
+Lemma gchunk_size0 k : gchunk k -> k_size k = 0 -> k_disk k = [].
+Proof.
+  intros (_ & _ & _ & Hsz) H0s. destruct (k_disk k) as [|e l]; [reflexivity|]. inversion Hsz as [|? ? He _]; subst.
+  unfold rend in He. pose proof (dsize_pos (snd e)). lia.
+Qed.
+
+(* one source file *)
+Lemma gc_file_step st src : GI st src (k_disk (chunk_at (gc_b st) src)) -> GX st ->
+  let st' := gc_file cf hf begin_ st src in
+  GI st' src [] /\ GX st' /\
+  (gc_dst st' <> src -> k_disk (chunk_at (gc_b st') src) = [] /\ k_size (chunk_at (gc_b st') src) = 0).
+Proof.
+  intros HG HX. cbv zeta. unfold gc_file. pose proof HG as (_ & _ & _ & G4 & _ & G6 & _). cbv zeta in G4, G6.
+  destruct (k_size (chunk_at (gc_b st) src) =? 0) eqn:Ez.
+  - apply N.eqb_eq in Ez. pose proof (gchunk_size0 _ (G4 src G6) Ez) as Hd. rewrite Hd in HG.
+    split; [exact HG|]. split; [exact HX|]. intros _. split; assumption.
+  - set (b := gc_b st) in *. set (recs := k_disk (chunk_at b src)) in *.
+    set (st1 := mkGC (clear_hint_chunk b src) (gc_dst st) (gc_stat st)).
+    assert (HG1 : GI st1 src recs).
+    { apply (gi_frame (clear_hint_chunk b src) (gc_dst st) (gc_stat st) st src recs eq_refl); [reflexivity| |exact HG].
+      apply iok_clear. apply HG. }
+    assert (HX1 : GX st1) by (apply (gx_frame (clear_hint_chunk b src) (gc_dst st) (gc_stat st) st eq_refl); [reflexivity|exact HX]).
+    destruct (gc_records_both src recs st1 HG1 HX1) as [HG2 HX2].
+    set (st2 := fold_left (gc_record cf hf begin_ src) recs st1) in *.
+    change gc_truncates_after_inplace with false. cbn [andb].
+    destruct (Nat.eqb_spec src (gc_dst st2)) as [E|Hne].
+    + (* rewritten in place *)
+      set (b4 := if Nat.leb (b_nextgc (gc_b st2)) (S src) then set_nextgc (gc_b st2) (S src) else gc_b st2).
+      assert (Hc4 : core b4 = core (gc_b st2)) by (unfold b4; destruct (Nat.leb _ _); reflexivity).
+      split; [|split].
+      * apply (gi_frame b4 (gc_dst st2) (gc_stat st2) st2 src [] eq_refl Hc4); [|exact HG2].
+        apply (iok_hints_same hf K (gc_b st2)); [unfold b4; destruct (Nat.leb _ _); reflexivity|apply HG2].
+      * apply (gx_frame b4 (gc_dst st2) (gc_stat st2) st2 eq_refl); [intros c; apply (core_chunk_at _ _ c Hc4)|exact HX2].
+      * cbn [gc_dst]. intros H. congruence.
+    + set (b3 := clear_chunk (gc_b st2) src).
+      set (b4 := if Nat.leb (b_nextgc b3) (S src) then set_nextgc b3 (S src) else b3).
+      assert (Hc4 : core b4 = core b3) by (unfold b4; destruct (Nat.leb _ _); reflexivity).
+      pose proof (gi_clear st2 src (gc_stat st2) HG2 ltac:(congruence)) as HG3. fold b3 in HG3.
+      split; [|split].
+      * apply (gi_frame b4 (gc_dst st2) (gc_stat st2) (mkGC b3 (gc_dst st2) (gc_stat st2)) src [] eq_refl Hc4); [|exact HG3].
+        apply (iok_hints_same hf K b3); [unfold b4; destruct (Nat.leb _ _); reflexivity|apply HG3].
+      * apply (gx_frame b4 (gc_dst st2) (gc_stat st2) (mkGC b3 (gc_dst st2) (gc_stat st2)) eq_refl); [intros c; apply (core_chunk_at _ _ c Hc4)|].
+        destruct HX2 as [X1 X2]. unfold GX. cbn [gc_b gc_dst]. unfold b3, clear_chunk. rewrite chunk_at_set_other by congruence.
+        split; [exact X1|]. intros c H1 H2. destruct (Nat.eq_dec src c) as [<-|Hn]; [rewrite chunk_at_set_same; apply chunk0_ok|].
+        rewrite chunk_at_set_other by exact Hn. now apply X2.
+      * cbn [gc_dst gc_b]. intros _. rewrite (core_chunk_at b4 b3 src Hc4). unfold b3, clear_chunk. rewrite chunk_at_set_same. split; reflexivity.
+Qed.
+
+(* all source files of the range *)
+Lemma gc_files_inv : forall n src st,
+  GI st src (k_disk (chunk_at (gc_b st) src)) -> GX st -> (src + n < H0)%nat ->
+  (forall c, (c < H0)%nat -> spaced (k_disk (chunk_at b0 c))) ->
+  let st' := fold_left (gc_file cf hf begin_) (seq src (S n)) st in
+  GI st' (src + n)%nat [] /\ GX st'.
+Proof.
+  induction n as [|n IH]; intros src st HG HX Hlt Hsp; cbn [seq fold_left]; cbv zeta.
+  - rewrite Nat.add_0_r. destruct (gc_file_step st src HG HX) as (H1 & H2 & _). split; assumption.
+  - destruct (gc_file_step st src HG HX) as (H1 & H2 & H3). cbv zeta in H1, H2, H3.
+    set (st1 := gc_file cf hf begin_ st src) in *.
+    pose proof (gi_next st1 src H1 H3 ltac:(lia) (Hsp (S src) ltac:(lia))) as HGn.
+    replace (src + S n)%nat with (S src + n)%nat by lia.
+    apply (IH (S src) st1 HGn H2); [lia|exact Hsp].
+Qed.
 End GV2.
+
+Lemma pick_dst_gap cf b begin_ : forall n, (n <= begin_)%nat ->
+  (forall c, (n <= c < begin_)%nat -> k_size (chunk_at b c) = 0) ->
+  let d := pick_dst cf b n begin_ in
+  (d <= begin_)%nat /\ forall c, (d < c < begin_)%nat -> k_size (chunk_at b c) = 0.
+Proof.
+  induction n as [|i IH]; intros Hn Hgap; cbn [pick_dst]; cbv zeta.
+  - split; [lia|]. intros c Hc. lia.
+  - destruct (0 <? k_size (chunk_at b i)) eqn:Es.
+    + destruct (Z.of_N (k_size (chunk_at b i)) <? Z.of_N (c_filemax cf) - Z.of_N (c_bodymax cf))%Z.
+      * split; [lia|]. intros c Hc. apply Hgap. lia.
+      * destruct (Nat.ltb i (begin_ - 1)) eqn:El.
+        -- apply Nat.ltb_lt in El. split; [lia|]. intros c Hc. apply Hgap. lia.
+        -- split; [lia|]. intros c Hc. lia.
+    + apply IH; [lia|]. intros c Hc. destruct (Nat.eq_dec c i) as [->|Hne]; [lia|apply Hgap; lia].
+Qed.
+
+Lemma gchunk_size0' k : gchunk k -> k_size k = 0 -> k_disk k = [].
+Proof.
+  intros (_ & _ & _ & Hsz) H0s. destruct (k_disk k) as [|e l]; [reflexivity|]. inversion Hsz as [|? ? He _]; subst.
+  unfold rend in He. pose proof (dsize_pos (snd e)). lia.
+Qed.
+
+Lemma chunk_ok_of_g' k : gchunk k -> Forall (fun e => rend e <= k_whead k) (k_disk k) -> chunk_ok k.
+Proof.
+  intros (Hw & He & _ & _) Hall. unfold chunk_ok, wstart. rewrite Hw. split; [|split; [intros o r0 []|split; [exact He|lia]]].
+  intros o r0 Hin. rewrite Forall_forall in Hall. specialize (Hall _ Hin). unfold rend in Hall. cbn [fst snd] in Hall. pose proof (dsize_pos r0). lia.
+Qed.
+
+Section GV3.
+Variable cf : cfg.
+Variable hf : bytes -> N.
+Variable K : list bytes.
+Hypothesis hf_inj : forall k1 k2, In k1 K -> In k2 K -> hf k1 = hf k2 -> k1 = k2.
+Hypothesis cap_pos : 0 < c_splitcap cf.
+
+(* what a GC pass needs from the bucket it starts on (every state reached by client operations and restarts has it,
+   provided no record extends past DataFileMax) *)
+Definition GPre (b : bucket) : Prop :=
+  (forall c, (c < b_head b)%nat -> gchunk (chunk_at b c) /\ spaced (k_disk (chunk_at b c))) /\
+  (forall c e, (c < b_head b)%nat -> In e (k_disk (chunk_at b c)) -> rend e <= c_filemax cf /\ In (d_key (snd e)) K) /\
+  IOK hf K b.
+
+Theorem gc_pass_view b m begin_ end_ :
+  Rel hf K b m -> GPre b -> (begin_ <= end_ < b_head b)%nat ->
+  Rel hf K (fst (gc_pass cf hf b begin_ end_ false)) m.
+Proof.
+  intros HR (P2 & P3 & P4) Hrange. pose proof HR as [((Hok & Habove) & Hct & Hslots) Habs].
+  unfold gc_pass. cbn [fst]. set (H0 := b_head b).
+  set (b1 := before_bucket cf b false).
+  assert (Hcore1 : core b1 = core b) by reflexivity.
+  assert (Hhint1 : b_hints b1 = b_hints b) by reflexivity.
+  assert (Hca1 : forall c, chunk_at b1 c = chunk_at b c) by (intros c; reflexivity).
+  destruct (pick_dst_gap cf b1 begin_ begin_ (le_n _) ltac:(intros c Hc; lia)) as [Hd1 Hd2]. cbv zeta in Hd1, Hd2.
+  set (dst0 := pick_dst cf b1 begin_ begin_) in *.
+  rewrite begin_gc_eq. set (kd0 := chunk_at b1 dst0).
+  assert (Hdlt : (dst0 < H0)%nat) by (unfold H0; lia).
+  destruct (begin_gc_chunk_facts kd0 (Nat.eqb dst0 begin_)) as (B1 & B2 & B3 & B4 & B5); [apply (P2 dst0 Hdlt)|]. cbv zeta in B1, B2, B3, B4, B5.
+  set (b2 := set_chunk b1 dst0 (begin_gc_chunk kd0 (Nat.eqb dst0 begin_))).
+  assert (Hca2 : forall c, chunk_at b2 c = if Nat.eqb c dst0 then begin_gc_chunk kd0 (Nat.eqb dst0 begin_) else chunk_at b c).
+  { intros c. unfold b2. destruct (Nat.eqb_spec c dst0) as [->|Hne]; [apply chunk_at_set_same|]. rewrite chunk_at_set_other by congruence. apply Hca1. }
+  assert (Hdisk2 : forall c, k_disk (chunk_at b2 c) = k_disk (chunk_at b c)).
+  { intros c. rewrite Hca2. destruct (Nat.eqb_spec c dst0) as [->|]; [exact B3|reflexivity]. }
+  assert (Hlog2 : forall p, log_find b2 p = log_find b p).
+  { intros p. unfold log_find, all_recs. rewrite Hdisk2, Hca2. destruct (Nat.eqb_spec (p_chunk p) dst0) as [E|]; [|reflexivity].
+    rewrite (proj1 B1), E. fold kd0. now rewrite (proj1 (proj1 (P2 dst0 Hdlt))). }
+  set (st0 := mkGC b2 dst0 gc0).
+  assert (HW0 : k_whead (chunk_at b2 dst0) = if Nat.eqb dst0 begin_ then 0 else k_size kd0) by (rewrite Hca2, Nat.eqb_refl; exact B5).
+  (* the invariant holds when the pass starts *)
+  assert (HG0 : GI cf hf K b st0 begin_ (k_disk (chunk_at (gc_b st0) begin_))).
+  { unfold GI. cbn [gc_b gc_dst st0]. fold H0. rewrite HW0.
+    split; [reflexivity|]. split; [exact Hct|].
+    split; [intros c Hc; rewrite Hca2; replace (Nat.eqb c dst0) with false by (symmetry; apply Nat.eqb_neq; unfold H0 in *; lia); reflexivity|].
+    split; [intros c Hc; rewrite Hca2; destruct (Nat.eqb c dst0); [exact B1|apply (P2 c Hc)]|].
+    split; [exact Hd1|]. split; [unfold H0; lia|].
+    split; [rewrite Hca2, Nat.eqb_refl; exact B2|].
+    split; [rewrite Hca2, Nat.eqb_refl, B4; destruct (Nat.eqb dst0 begin_); lia|].
+    split.
+    { intros c Hc. rewrite Hca2. replace (Nat.eqb c dst0) with false by (symmetry; apply Nat.eqb_neq; lia).
+      pose proof (Hd2 c Hc) as Hs. rewrite Hca1 in Hs. split; [|exact Hs]. apply gchunk_size0'; [apply (P2 c); unfold H0; lia|exact Hs]. }
+    split; [auto|]. split; [intros E e He; rewrite E, Nat.eqb_refl; lia|].
+    split; [rewrite Hdisk2; apply (P2 begin_); unfold H0; lia|].
+    split; [intros c e Hc He; rewrite Hdisk2 in He; now apply (P3 c)|].
+    split; [apply (iok_hints_same hf K b); [reflexivity|exact P4]|]. split.
+    - intros h s Hs. change (tree_get_slot b2 h) with (tree_get_slot b h) in Hs.
+      destruct (Hslots h s Hs) as (r0 & L & A1 & A2 & A3 & A4 & A5). exists r0. rewrite Hlog2.
+      repeat (split; [assumption|]).
+      destruct (Nat.eq_dec (p_chunk (s_pos s)) begin_) as [E|Hnb].
+      + right. right. split; [exact E|]. rewrite Hdisk2.
+        rewrite log_find_gchunk in L by (rewrite E; apply (P2 begin_); unfold H0; lia). rewrite E in L. now apply find_off_some_in.
+      + destruct (Nat.eq_dec (p_chunk (s_pos s)) dst0) as [E|Hnd]; [|left; now split].
+        right. left. split; [exact E|]. replace (Nat.eqb dst0 begin_) with false by (symmetry; apply Nat.eqb_neq; congruence).
+        rewrite log_find_gchunk in L by (rewrite E; apply (P2 dst0 Hdlt)). rewrite E in L. apply find_off_some_in in L.
+        destruct (P2 dst0 Hdlt) as [(_ & _ & _ & Hsz) _]. rewrite Forall_forall in Hsz. specialize (Hsz _ L). unfold rend in Hsz. exact Hsz.
+    - intros k Hk. unfold abs. change (tree_get_slot b2 (hf k)) with (tree_get_slot b (hf k)).
+      destruct (tree_get_slot b (hf k)); [now rewrite Hlog2|reflexivity]. }
+  assert (HX0 : GX b st0).
+  { unfold GX. cbn [gc_b gc_dst st0]. fold H0. split.
+    - rewrite Hca2, Nat.eqb_refl. unfold begin_gc_chunk. destruct (Nat.eqb dst0 begin_); cbn [k_rewriting k_whead k_size]; [now left|now right].
+    - intros c Hc Hne. rewrite Hca2. replace (Nat.eqb c dst0) with false by (symmetry; apply Nat.eqb_neq; exact Hne). apply Hok. }
+  destruct (gc_files_inv cf hf K hf_inj cap_pos b begin_ (end_ - begin_) begin_ st0 HG0 HX0) as [HGe HXe].
+  { fold H0. lia. }
+  { intros c Hc. apply (P2 c Hc). }
+  cbv zeta in HGe, HXe. replace (S (end_ - begin_)) with (S end_ - begin_)%nat in HGe, HXe by lia. fold b1 dst0 in HGe, HXe.
+  replace (begin_ + (end_ - begin_))%nat with end_ in HGe by lia.
+  set (st := fold_left (gc_file cf hf begin_) (seq begin_ (S end_ - begin_)) st0) in *.
+  (* the end of the pass *)
+  destruct HGe as (G1 & G2 & G3 & G4 & G5 & G6 & G7 & G8 & G9 & G10 & G11 & G12 & G13 & G14 & G15 & G16). cbv zeta in *.
+  destruct HXe as [X1 X2]. cbv zeta in X1, X2. fold H0 in G1, G3, G4, G6, X2.
+  set (be := gc_b st) in *. set (D := gc_dst st) in *.
+  assert (HDlt : (D < H0)%nat) by lia.
+  destruct (end_gc_chunk_facts (chunk_at be D) (G4 D HDlt) G7 G8) as (E1 & _ & E3 & _ & E5 & _). cbv zeta in E1, E3, E5.
+  destruct (E5 X1) as [E5a _].
+  rewrite end_gc_eq. set (b3 := set_chunk be D (end_gc_chunk (chunk_at be D))).
+  apply (Rel_core hf K b3 _ m (eq_sym (trydump_core b3 D true))).
+  assert (Hlog3 : forall p r0, log_find be p = Some r0 -> (p_chunk p = D -> p_off p + dsize r0 <= k_whead (chunk_at be D)) -> log_find b3 p = Some r0).
+  { intros p r0 Hl Hp. unfold log_find in *. unfold b3. destruct (Nat.eq_dec D (p_chunk p)) as [E|Hne]; [|now rewrite chunk_at_set_other].
+    rewrite <- E, chunk_at_set_same. unfold all_recs in *. rewrite (proj1 E1), app_nil_r. rewrite <- E in Hl. rewrite (proj1 (G4 D HDlt)), app_nil_r in Hl.
+    destruct E1 as (_ & _ & End & _). apply find_off_in_nodup; [exact End|]. apply E3; [now apply find_off_some_in|apply Hp; now symmetry]. }
+  assert (Hslot3 : forall h s, tree_get_slot be h = Some s -> exists r0, log_find be (s_pos s) = Some r0 /\ log_find b3 (s_pos s) = Some r0).
+  { intros h s Hs. destruct (G15 h s Hs) as (r0 & L & _ & _ & _ & _ & _ & P). exists r0. split; [exact L|]. apply Hlog3; [exact L|].
+    intros E. destruct P as [[P _]|[[_ P]|[_ []]]]; [congruence|exact P]. }
+  split.
+  - split; [split|split; [exact G2|]].
+    + intros c. unfold b3. destruct (Nat.eq_dec D c) as [<-|Hne]; [rewrite chunk_at_set_same; now apply chunk_ok_of_g'|].
+      rewrite chunk_at_set_other by exact Hne.
+      destruct (Nat.lt_ge_cases c H0) as [Hlt|Hge]; [apply X2; [exact Hlt|congruence]|].
+      destruct (Nat.eq_dec c H0) as [->|Hn0]; [rewrite G3 by (now left); apply Hok|].
+      rewrite G3 by (right; lia). apply Hok.
+    + intros c Hc. change (b_head b3) with (b_head be) in Hc. rewrite G1 in Hc. unfold b3. rewrite chunk_at_set_other by lia.
+      rewrite G3 by (right; lia). apply Habove. exact Hc.
+    + intros h s Hs. change (tree_get_slot b3 h) with (tree_get_slot be h) in Hs.
+      destruct (G15 h s Hs) as (r0 & L & A1 & A2 & A3 & A4 & A5 & P). destruct (Hslot3 h s Hs) as (r1 & L1 & L3). rewrite L in L1. injection L1 as <-.
+      exists r0. repeat (split; [assumption|]). exact A5.
+  - intros k Hk. rewrite <- (Habs k Hk), <- (G16 k Hk). unfold abs. change (tree_get_slot b3 (hf k)) with (tree_get_slot be (hf k)).
+    destruct (tree_get_slot be (hf k)) as [s|] eqn:Es; [|reflexivity]. destruct (Hslot3 _ s Es) as (r0 & L & L3). now rewrite L, L3.
+Qed.
+End GV3.
+
+(* ---- the invariant of client operations and restarts gives what a GC pass needs ---- *)
+Lemma cov_items_ok hf K c recs : forall sps lo, cov hf K c lo sps recs -> forall it, In it (items_of sps) -> item_ok hf K it.
+Proof.
+  induction sps as [|sp sps IH]; intros lo Hc it Hin; [destruct Hin|]. cbn [cov] in Hc. destruct Hc as [(_ & _ & Hok) Hrest].
+  unfold items_of in Hin. cbn [map List.concat] in Hin. apply in_app_or in Hin as [Hin|Hin].
+  - rewrite Forall_forall in Hok. now apply Hok.
+  - now apply (IH _ Hrest).
+Qed.
+
+Lemma sorted_nodup (l : list (N * drec)) : StronglySorted (fun a b => fst a < fst b) l -> NoDup (map fst l).
+Proof.
+  induction 1 as [|x l Hs IH Hx]; cbn [map]; constructor; [|exact IH].
+  intros Hin. apply in_map_iff in Hin as (y & Hy & Hin). rewrite Forall_forall in Hx. specialize (Hx y Hin). lia.
+Qed.
+
+Definition FMok (cf : cfg) (b : bucket) : Prop :=
+  forall c e, (c < b_head b)%nat -> In e (k_disk (chunk_at b c)) -> rend e <= c_filemax cf.
+
+Lemma xinv_gpre cf hf K b : XInv hf K b -> FMok cf b -> GPre cf hf K b.
+Proof.
+  intros (X1 & X2 & X3 & X4 & _) Hfm.
+  assert (Hrecs : forall c, (c < b_head b)%nat -> all_recs (chunk_at b c) = k_disk (chunk_at b c)).
+  { intros c Hc. unfold all_recs. rewrite (X2 c) by lia. apply app_nil_r. }
+  split; [|split].
+  - intros c Hc. destruct (X1 c) as (Hok & Hsp & Hall & _ & Hsz & _). rewrite (Hrecs c Hc) in Hsp, Hall. split; [|exact Hsp].
+    split; [apply X2; lia|]. split; [apply Hok|]. split; [apply sorted_nodup, spaced_lt, Hsp|]. rewrite Hsz. exact Hall.
+  - intros c e Hc He. split; [now apply (Hfm c)|]. apply (X3 c). unfold recs_at. now rewrite (Hrecs c Hc).
+  - intros c it Hin. destruct (X4 c) as (_ & Hc & _). apply (cov_items_ok hf K c _ _ 0 Hc it Hin).
+Qed.
